@@ -89,11 +89,13 @@ func c04Main(args []string) error {
 			cfg.readers = false
 		}
 		if *backups {
+			// the writers that commit between the chunks of a copy run inside the copy's Write callback: a commit that had
+			// to remap would wait for the copying reader itself - map far more than any history needs
+			o.imm = 256 << 20
 			cfg.backups = true
 			cfg.reopen = false
-			o.imm = 16 << 20 // a remap would wait for the reader the backup itself is using
 		}
-		if cfg.readers && cr.chance(3, 4) {
+		if cfg.readers && !*backups && cr.chance(3, 4) {
 			o.imm = 4 << 20 // avoid most remaps (which block on open readers) in reader histories
 		}
 		lines := genHistory(cr, cfg, o)
